@@ -24,6 +24,22 @@ CHECKS = {
    design="5/C04", technique="Lean 4 proof (head read-back lemmas, induction over chunk lists) + differential correspondence with tree-derived oracle",
    note="partial: the 'non-matching accessor returns an error' and 'strict prefix -> end-of-input' halves are checked by the correspondence oracle only (theorems pending); "
         "typed decoding of the ~100 built-in types is exercised in the C01/C02 streams"),
+ "C11": dict(
+   text="Model of Token (encode/decode/len), the Tokenizer iterator and token re-encoding; Lean theorems (in progress, see level_note) that tokenising the encoding of any "
+        "valid wire tree yields one token per head carrying its data-model value, that re-encoding gives the preferred form (identity on preferred input), that "
+        "encoded token lists tokenise back value-equal and that tokenisation of arbitrary bytes yields at most one token per byte. Correspondence: wire trees (preferred and "
+        "non-preferred, indefinite, chunked), all 65536 half patterns except signalling NaNs, all simple values, random token lists (26 variants, boundary payloads), "
+        "arbitrary bytes; judged by the property's own oracle computed from the tree / token list, and compared with the model.",
+   design="5/C11", technique="Lean 4 proof (induction over wire trees / token lists) + differential correspondence with tree-derived oracle",
+   note="the general theorems are being added to lean/Minicbor/Thm/C11.lean; the evidence file lists the theorems audited on each run"),
+ "C19": dict(
+   text="Model of the diagnostic Display state machine (tokenizer.rs) and Token::fmt; Lean theorems (in progress, see level_note) for totality, the linear size bound and the "
+        "documented notation on valid wire trees. Correspondence: all byte strings up to 2 (3 thorough) bytes, all heads with extreme declared lengths, truncated/mutated valid "
+        "items (real output must stay within 16*len+256 in a length-limited sink and equal the model's), and wire trees whose rendering is compared with the notation rendered "
+        "independently from the tree.",
+   design="5/C19", technique="Lean 4 proof (potential function over the control stack; induction over wire trees) + differential correspondence",
+   note="Rust's {:e} float formatting and error message texts are parameters of the model (re-implemented / canonicalised in the orchestrator); the general theorems are being "
+        "added to lean/Minicbor/Thm/C19.lean; the evidence file lists the theorems audited on each run"),
  "C05": dict(
    text="Lean theorem int_accessor_exact: for every accessor type (u8..u64,i8..i64,Int), every sign, every head width and every argument that fits the width, "
         "the model accessor returns the mathematical value and stops right after the head iff the value is representable in the type, and an error otherwise "
